@@ -164,10 +164,102 @@ def closed_form_case(ctx, rng, forced=None):
     return None, None
 
 
+UNITS = {      # (length, modulus, density) factors of a consistent unit system relative to SI; frequencies scale by sqrt(e/q)/s
+    'SI': (1., 1., 1.), 'mm-kg-ms-GPa': (1e3, 1e-9, 1e-9), 'mm-t-s-MPa': (1e3, 1e-6, 1e-12)}
+
+
+def closed_forms(a, b, D, mu, h, ratio):
+    best = min(math.pi ** 2 * (D[0, 0] * (i / a) ** 4 + 2 * (D[0, 1] + 2 * D[2, 2]) * (i / a) ** 2 * (j / b) ** 2 + D[1, 1] * (j / b) ** 4)
+               / ((i / a) ** 2 + ratio * (j / b) ** 2) for i in range(1, 14) for j in range(1, 14))
+    wcf = min(math.sqrt(math.pi ** 4 * (D[0, 0] * (i / a) ** 4 + 2 * (D[0, 1] + 2 * D[2, 2]) * (i / a) ** 2 * (j / b) ** 2 + D[1, 1] * (j / b) ** 4)
+                        / (mu * h * (1 + h * h / 12. * math.pi ** 2 * ((i / a) ** 2 + (j / b) ** 2))))
+              for i in range(1, 6) for j in range(1, 6))
+    return best, wcf
+
+
+def analysis_case(ctx, rng, t):
+    """The multipliers / frequencies AS THE PACKAGE'S ANALYSES DELIVER THEM (Panel.lb, Panel.freq, compmech.analysis.lb / freq, sparse and
+    dense) for simply supported specially orthotropic plates: never below the closed form, within 5 % of it for moderate aspect ratios, and
+    not raised by added terms - in three consistent unit systems (frequencies of order 1e-2 in mm-kg-ms), for very thin large plates with a
+    rich basis, and for ONE Panel object swept through several aspect ratios / term counts (refinement study as users run it)."""
+    from compmech.panel import Panel
+    from compmech import analysis as an
+    thin = (t % 4 == 3)
+    unit = 'SI' if thin else list(UNITS)[t % 3]       # (thin plates in ms units: eigs with its fixed shift -1 does not converge at all)
+    s_, e_, q_ = UNITS[unit]
+    stack = rng.choice([[0], [0, 90, 90, 0], [90, 0, 0, 90], [0, 90, 0]])
+    lp0 = rng.choice([(142.5e9, 8.7e9, 0.28, 5.1e9, 5.1e9, 5.1e9), (71e9, 71e9, 0.33, 26.7e9, 26.7e9, 26.7e9)])
+    lp = tuple(v * e_ if k != 2 else v for k, v in enumerate(lp0))
+    plyt = (0.2e-3 / len(stack) if thin else rng.choice([0.5e-3, 1e-3])) * s_
+    b = (5. if thin else 1.) * s_
+    mu = 1500. * q_
+    ratio = rng.choice([0., 0.5, 1.])
+    mn0 = 16 if thin else rng.choice([6, 8])
+    sweep = [(12. / 5. if thin else rng.uniform(0.6, 1.8), mn0)]
+    if not thin:
+        sweep += [(rng.uniform(0.6, 1.8), mn0), (sweep[0][0], mn0 + 2)]          # same object: other aspect ratio, then more terms
+    p = Panel(a=sweep[0][0] * b, b=b, stack=stack, plyt=plyt, laminaprop=lp, mu=mu, m=mn0, n=mn0)
+    p.model = 'plate_clt_donnell_bardell'
+    for f in 'uv':
+        for e in ('1t', '1r', '2t', '2r'):
+            for d in 'xy':
+                setattr(p, f + e + d, 1.)
+    p.u1tx = p.v1ty = 0.
+    p.u1ty = 0.
+    p.num_eigvalues = 6
+    D = own_D(stack, [plyt] * len(stack), lp)
+    h = plyt * len(stack)
+    prev = {}
+    for step, (ar, mn) in enumerate(sweep):
+        p.a, p.m, p.n = ar * b, mn, mn
+        best, wcf = closed_forms(p.a, b, D, mu, h, ratio)
+        p.Nxx, p.Nyy, p.Nxy = -best / 2., -ratio * best / 2., 0.         # reference load = half the critical one: multiplier 2
+        desc = dict(unit=unit, thin=thin, stack=stack, plyt=plyt, a=p.a, b=b, mn=mn, ratio=ratio, step=step, closed_form_load=best, closed_form_freq=wcf)
+        got = {}
+        dense = (step + t) % 2 == 1 and mn <= 10
+        try:
+            pc.quiet(p.lb, silent=True, sparse_solver=not dense)
+            ev = np.asarray(p.eigvals, dtype=float)
+            got['Panel.lb'] = (float(ev[ev > 0].min()) * best / 2., best)
+            K, KG, M = p.k0, p.kG0, None
+            ev = np.asarray(pc.quiet(an.lb, K, KG, silent=True, sparse_solver=not dense, num_eigvalues=6)[0], dtype=float)
+            got['analysis.lb'] = (float(ev[ev > 0].min()) * best / 2., best)
+            pc.quiet(p.freq, silent=True, sparse_solver=not dense)
+            ev = np.asarray(p.eigvals).real
+            got['Panel.freq'] = (float(ev.min()) if len(ev) else float('inf'), wcf)
+            ev = np.asarray(pc.quiet(an.freq, p.k0, p.kM, silent=True, sparse_solver=not dense, num_eigvalues=6)[0]).real
+            got['analysis.freq'] = (float(ev.min()) if len(ev) else float('inf'), wcf)
+        except Exception as e:                                            # noqa
+            if 'ArpackNoConvergence' in type(e).__name__:
+                return None, None          # no result delivered: nothing to judge (solver accuracy is a recorded assumption of C05/C06)
+            return desc, 'analysis raised %s: %s' % (type(e).__name__, str(e)[:120])
+        for name, (val, cf) in got.items():
+            desc[name] = val
+            if val < cf * (1 - 1e-6):
+                return desc, '%s delivers %.9e as lowest value, BELOW the closed form %.9e (%s, m=n=%d, step %d of a sweep on one object)' % (
+                    name, val, cf, unit, mn, step)
+            if 0.5 <= ar <= 2.5 and val > cf * (1 + 5e-2):
+                return desc, '%s delivers %.9e as lowest value; it has not converged to the closed form %.9e (%s, m=n=%d, step %d of a sweep on one object)' % (
+                    name, val, cf, unit, mn, step)
+            if step == 2 and name in prev and val > prev[name] * (1 + 1e-7):
+                return desc, '%s: adding terms (m=n %d -> %d) on the same object RAISED the lowest value %.9e -> %.9e' % (name, mn - 2, mn, prev[name], val)
+        if step == 0:
+            prev = {k: v[0] for k, v in got.items()}
+    return None, None
+
+
 def correspondence(ctx):
     pc.translated(ctx)
     rng = ctx.rng
     dist = dict(monotone=0, closed_form=0)
+    for t in range(ctx.scale(8, 48)):
+        c, bad = analysis_case(ctx, rng, t)
+        ctx.evaluations += 1
+        dist['analysis_route'] = dist.get('analysis_route', 0) + 1
+        ctx.nontrivial.add(('analysis', t))
+        if bad:
+            ctx.violation('C15 fails on the implementation: ' + bad, dict(case=c, part='analysis route'))
+            return
     for t in range(ctx.scale(15, 150)):
         c, bad = monotone_case(ctx, rng)
         ctx.evaluations += 1
